@@ -255,3 +255,79 @@ def check_c18(tier, seed):
         print(f'VIOLATION property={pid} replay={rp}' + (' no-failing-input-found' if kind == 'proof' else ''))
     print(f'[{pid}] theorems={obligations} discharged={obligations if proof_ok else 0} cells={cells} failing={len(failing)} wall={wall:.1f}s')
     return 1 if violations else 0
+
+
+# ---------------------------------------------------------------------------------------------------------------
+# C20
+# ---------------------------------------------------------------------------------------------------------------
+def check_c20(tier, seed):
+    t0 = time.time()
+    pid = 'C20'
+    out = os.path.join(V.OUT, pid)
+    os.makedirs(out, exist_ok=True)
+    notes, violations = [], []
+    sys.path.insert(0, os.path.join(ROOT, 'translate'))
+    import forwarding
+    import aritytable
+    ok1, m1 = forwarding.run()
+    ok2, m2 = aritytable.run()
+    notes += ['forwarding: ' + m1, 'aritytable: ' + m2]
+    bad = V.forbidden_scan()
+    pr = V.check_properties_file(pid)
+    obligations = len(pr['theorems'])
+    proof_ok = pr['ok'] and not bad and ok1 and ok2
+    jobs = [(os.path.join(ROOT, 'harness', 'c20', 'grid.cpp'), os.path.join(out, 'grid_gxx'),
+             ['-std=c++17', '-O0', '-fsanitize=undefined,address', '-fno-sanitize-recover=all', '-I' + os.path.join(V.REPO, 'src')], [])]
+    res = [compile_and_run(j) for j in jobs]
+    if tier == 'thorough':
+        rc, o = V.sh(['clang++', '-std=c++17', '-O1', '-fsanitize=undefined,address', '-I' + os.path.join(V.REPO, 'src'),
+                      jobs[0][0], '-o', os.path.join(out, 'grid_clang')], timeout=900)
+        if rc == 0:
+            rc, o = V.sh([os.path.join(out, 'grid_clang')], timeout=300)
+        res.append(dict(src=jobs[0][0] + ' (clang++)', stage='run', rc=rc, out=o[-4000:], wall=0))
+    cells = 0
+    failing = []
+    for r in res:
+        m = re.search(r'cells (\d+) failures (\d+)', r['out'])
+        if m:
+            cells += int(m.group(1))
+        if r['rc'] != 0:
+            failing.append(r)
+    if failing:
+        r = failing[0]
+        replay = os.path.join(out, f'replay_{seed}.txt')
+        with open(replay, 'w') as f:
+            f.write(f'# property=C20: {r["stage"]} of {r["src"]} failed (rc={r["rc"]}): a caller-supplied l-value was altered\n')
+            f.write(f'#   g++ -std=c++17 -fsanitize=undefined,address -I/repo/src {jobs[0][0]} -o /tmp/c20 && /tmp/c20\n')
+            f.write(r['out'])
+        violations.append(('grid', replay, 'grid failed'))
+    if not proof_ok and not failing:
+        replay = os.path.join(out, f'proof_broken_{seed}.txt')
+        with open(replay, 'w') as f:
+            f.write('property C20: the forwarding facts regenerated from the current headers no longer pass the check (coq/Properties_C20.v)\n')
+            f.write(f'failed at {pr.get("failed_at")}; translators: {m1}; {m2}; forbidden: {bad}\n\n' + pr['log'][-4000:])
+        violations.append(('proof', replay, 'no-failing-input-found'))
+    wall = time.time() - t0
+    coverage = {
+        'obligations': obligations, 'discharged': obligations if proof_ok else 0,
+        'checker_cmd': 'python3 translate/forwarding.py && python3 translate/aritytable.py && cd coq && make -k Properties_C20.vo',
+        'trusted_base': ['Coq 8.16.1 kernel; vm_compute for the finite sweep over the regenerated site table',
+                         'translate/forwarding.py: a static analysis over clang 14 JSON AST written for this task (which std::move/std::forward calls '
+                         'apply to which reference parameter; sink resolution only for makeNode -> ConstantNode); unknown sinks fail the check',
+                         'Print Assumptions: ' + '; '.join(sorted(set(pr['assumptions'])))],
+        'theorems': pr['theorems'],
+        'programs': len(res), 'disagreements_checked': cells, 'evaluations': cells, 'distinct_nontrivial': cells,
+        'rule': 'one cell = (construction entry point, argument kind passed as l-value): the caller\'s object is compared with its state before '
+                'and used again; entry points: connect, connectReflective, connectSingleShot, connectDeferred, connect with bound argument, '
+                'Private::makeNode, makeBinding and makeBoundProperty with and without evaluator, operator expressions; argument kinds: stateful '
+                'lambda, std::function, function object with mutable state, std::string / std::vector constants, evaluator, input properties',
+        'exhaustive': True,
+        'samples': [{'cell': 'makeBoundProperty(ev, memo, a, b) with Memo{mutable calls, cache}: memo.calls == 0 afterwards'}],
+        'source_fingerprint': V.repo_fingerprint(), 'notes': notes,
+    }
+    V.write_evidence(pid, tier, seed, 'proof', coverage, wall, len(violations),
+                     ['the extraction of forwarding facts is a static analysis written for this task (trusted); the grid is the search for a concrete altered argument'])
+    for kind, rp, what in violations:
+        print(f'VIOLATION property={pid} replay={rp}' + (' no-failing-input-found' if kind == 'proof' else ''))
+    print(f'[{pid}] theorems={obligations} discharged={obligations if proof_ok else 0} cells={cells} failing={len(failing)} wall={wall:.1f}s')
+    return 1 if violations else 0
